@@ -266,9 +266,11 @@ def parse(s):
 SMART_PTRS = {"intrusive_ptr", "unique_ptr", "shared_ptr", "weak_ptr"}
 SEQS = {"vector", "deque", "list"}
 SEQ_ITERS = {"__normal_iterator", "_Deque_iterator", "_List_iterator", "_List_const_iterator"}
+# iterators of the map/set models: pointer to the entry (pair) / key
+ASSOC_ITERS = {"_Rb_tree_iterator", "_Rb_tree_const_iterator", "_Node_iterator", "_Node_const_iterator"}
 INT_TYPEDEFS = {
     "size_t": "size_t", "std::size_t": "size_t", "ssize_t": "long", "ptrdiff_t": "long", "std::ptrdiff_t": "long",
-    "aid_t": "long", "sg_size_t": "unsigned long", "sg_offset_t": "long",
+    "aid_t": "long", "sg_size_t": "unsigned long long", "sg_offset_t": "long long",
     "uint8_t": "unsigned char", "int8_t": "signed char", "uint16_t": "unsigned short", "int16_t": "short",
     "uint32_t": "unsigned int", "int32_t": "int", "uint64_t": "unsigned long", "int64_t": "long",
     "uintptr_t": "unsigned long", "intptr_t": "long", "std::uint32_t": "unsigned int", "std::uint64_t": "unsigned long",
@@ -385,6 +387,8 @@ class TypeMap:
             if last == "__normal_iterator":
                 return self.c(a0)  # already T*
             return self.c(a0) + "*"
+        if last in ASSOC_ITERS and t.args:
+            return self.c(t.args[0]) + "*"
         if last in ("iterator", "const_iterator", "reverse_iterator", "const_reverse_iterator") and "::" in name:
             # std::vector<T>::iterator printed unsugared
             m = re.match(r"(.*)<(.*)>::(const_)?iterator$", name)
